@@ -14,6 +14,7 @@ import (
 	"path/filepath"
 	"strconv"
 	"strings"
+	"sync"
 	"testing"
 
 	"pgregory.net/rapid"
@@ -21,8 +22,18 @@ import (
 )
 
 // ---------------------------------------------------------------- process mode
+//
+// Client processes are the test binary itself, re-executed with
+// -test.run '^TestVerifC05Helper$' and VERIF_C05_HELPER=1. Starting a 48 MB test binary
+// costs ~0.5 CPU-seconds, so the processes are kept in a pool and serve one job (= one
+// client of one phase: open the store, run the script, close the store) after the other;
+// what matters for the property — separate address spaces, separate connections, OS-level
+// file locking, a system-wide clock — holds for every job.
+//
+// Wire protocol (lines): parent "JOB <file>" → child "C05READY" → parent "START <ns>" →
+// child runs, writes the gob result file → child "C05DONE". EOF on stdin ends the child.
 
-const c05HelperEnv = "VERIF_C05_HELPER_JOB"
+const c05HelperEnv = "VERIF_C05_HELPER"
 
 type c05Job struct {
 	Target c05Target
@@ -38,80 +49,100 @@ type c05JobResult struct {
 	Infra  string
 }
 
-// TestVerifC05Helper is the client side of process mode: the test binary re-executes
-// itself with -test.run '^TestVerifC05Helper$' and the job file in the environment.
-// Without the variable it does nothing.
+// TestVerifC05Helper is the client side of process mode. Without the environment
+// variable it does nothing.
 func TestVerifC05Helper(t *testing.T) {
-	jobPath := os.Getenv(c05HelperEnv)
-	if jobPath == "" {
+	if os.Getenv(c05HelperEnv) == "" {
 		return
 	}
 	c05AWSEnv()
-	f, err := os.Open(jobPath)
-	if err != nil {
-		c05Inconclusive("helper: %v", err)
-	}
-	var job c05Job
-	if err := gob.NewDecoder(f).Decode(&job); err != nil {
-		c05Inconclusive("helper: decoding job: %v", err)
-	}
-	f.Close()
-	be, err := job.Target.open()
-	if err != nil {
-		c05Inconclusive("helper: opening %s store: %v", job.Target.Kind, err)
-	}
-	cl := &c05Client{tg: job.Target, idx: job.Client, phase: job.Phase, be: be, own: true}
-	// handshake: tell the parent we are ready, receive the common start instant
-	fmt.Println("C05READY")
-	os.Stdout.Sync()
-	line, err := bufio.NewReader(os.Stdin).ReadString('\n')
-	if err != nil {
-		c05Inconclusive("helper: reading start instant: %v", err)
-	}
-	start, err := strconv.ParseInt(strings.TrimSpace(line), 10, 64)
-	if err != nil {
-		c05Inconclusive("helper: bad start instant %q", line)
-	}
-	for c05Now() < start {
-	}
-	cl.run(job.Steps)
-	c05Close(cl.be)
-	res := c05JobResult{Ops: cl.ops, Reopen: cl.reopen}
-	if cl.infra != nil {
-		res.Infra = cl.infra.Error()
-	}
-	var buf bytes.Buffer
-	if err := gob.NewEncoder(&buf).Encode(res); err != nil {
-		c05Inconclusive("helper: encoding result: %v", err)
-	}
-	if err := os.WriteFile(job.Out, buf.Bytes(), 0o600); err != nil {
-		c05Inconclusive("helper: %v", err)
+	rd := bufio.NewReader(os.Stdin)
+	for {
+		line, err := rd.ReadString('\n')
+		if err != nil {
+			return // parent closed the pipe (or died)
+		}
+		jobPath, ok := strings.CutPrefix(strings.TrimSpace(line), "JOB ")
+		if !ok {
+			c05Inconclusive("helper: unexpected line %q", line)
+		}
+		b, err := os.ReadFile(jobPath)
+		if err != nil {
+			c05Inconclusive("helper: %v", err)
+		}
+		var job c05Job
+		if err := gob.NewDecoder(bytes.NewReader(b)).Decode(&job); err != nil {
+			c05Inconclusive("helper: decoding job: %v", err)
+		}
+		be, err := job.Target.open()
+		if err != nil {
+			c05Inconclusive("helper: opening %s store: %v", job.Target.Kind, err)
+		}
+		cl := &c05Client{tg: job.Target, idx: job.Client, phase: job.Phase, be: be, own: true}
+		// handshake: tell the parent we are ready, receive the common start instant
+		fmt.Println("C05READY")
+		line, err = rd.ReadString('\n')
+		if err != nil {
+			c05Inconclusive("helper: reading start instant: %v", err)
+		}
+		st, _ := strings.CutPrefix(strings.TrimSpace(line), "START ")
+		start, err := strconv.ParseInt(st, 10, 64)
+		if err != nil {
+			c05Inconclusive("helper: bad start instant %q", line)
+		}
+		for c05Now() < start {
+		}
+		cl.run(job.Steps)
+		c05Close(cl.be)
+		res := c05JobResult{Ops: cl.ops, Reopen: cl.reopen}
+		if cl.infra != nil {
+			res.Infra = cl.infra.Error()
+		}
+		var buf bytes.Buffer
+		if err := gob.NewEncoder(&buf).Encode(res); err != nil {
+			c05Inconclusive("helper: encoding result: %v", err)
+		}
+		if err := os.WriteFile(job.Out, buf.Bytes(), 0o600); err != nil {
+			c05Inconclusive("helper: %v", err)
+		}
+		fmt.Println("C05DONE")
 	}
 }
 
-// c05RunProcs runs one phase with one OS process per client.
-func c05RunProcs(t c05Failer, dir string, tg c05Target, phase int, scripts [][]c05Step) (ops []c05Op, reopens int) {
-	type child struct {
-		cmd   *exec.Cmd
-		in    *os.File
-		out   *bufio.Reader
-		errb  *bytes.Buffer
-		res   string
-		outrd *os.File
-	}
-	var cs []*child
-	for i, sc := range scripts {
-		jobPath := filepath.Join(dir, fmt.Sprintf("job-%d-%d.gob", phase, i))
-		resPath := filepath.Join(dir, fmt.Sprintf("res-%d-%d.gob", phase, i))
-		var buf bytes.Buffer
-		if err := gob.NewEncoder(&buf).Encode(c05Job{Target: tg, Client: i, Phase: phase, Steps: sc, Out: resPath}); err != nil {
-			c05Inconclusive("encoding job: %v", err)
-		}
-		if err := os.WriteFile(jobPath, buf.Bytes(), 0o600); err != nil {
-			c05Inconclusive("%v", err)
-		}
-		cmd := exec.Command(os.Args[0], "-test.run", "^TestVerifC05Helper$", "-test.count=1", "-test.timeout=300s")
-		cmd.Env = append(os.Environ(), c05HelperEnv+"="+jobPath, "VERIF_STATS_DIR=")
+type c05SyncBuf struct {
+	mu sync.Mutex
+	b  bytes.Buffer
+}
+
+func (s *c05SyncBuf) Write(p []byte) (int, error) {
+	s.mu.Lock()
+	defer s.mu.Unlock()
+	return s.b.Write(p)
+}
+
+func (s *c05SyncBuf) String() string {
+	s.mu.Lock()
+	defer s.mu.Unlock()
+	return s.b.String()
+}
+
+type c05Child struct {
+	cmd  *exec.Cmd
+	in   *os.File
+	outf *os.File
+	out  *bufio.Reader
+	errb *c05SyncBuf
+}
+
+var (
+	c05Pool    []*c05Child
+	c05Spawned int64
+)
+
+func c05PoolGet(n int) []*c05Child {
+	for len(c05Pool) < n {
+		cmd := exec.Command(os.Args[0], "-test.run", "^TestVerifC05Helper$", "-test.count=1", "-test.timeout=0")
+		cmd.Env = append(os.Environ(), c05HelperEnv+"=1", "VERIF_STATS_DIR=", "GORACE=halt_on_error=1")
 		inr, inw, err := os.Pipe()
 		if err != nil {
 			c05Inconclusive("pipe: %v", err)
@@ -120,53 +151,81 @@ func c05RunProcs(t c05Failer, dir string, tg c05Target, phase int, scripts [][]c
 		if err != nil {
 			c05Inconclusive("pipe: %v", err)
 		}
-		ch := &child{cmd: cmd, in: inw, out: bufio.NewReader(outr), errb: &bytes.Buffer{}, res: resPath, outrd: outr}
+		ch := &c05Child{cmd: cmd, in: inw, outf: outr, out: bufio.NewReader(outr), errb: &c05SyncBuf{}}
 		cmd.Stdin, cmd.Stdout, cmd.Stderr = inr, outw, ch.errb
 		if err := cmd.Start(); err != nil {
 			c05Inconclusive("cannot re-exec the test binary %s: %v", os.Args[0], err)
 		}
 		inr.Close()
 		outw.Close()
-		cs = append(cs, ch)
+		c05Pool = append(c05Pool, ch)
+		c05Spawned++
 	}
+	return c05Pool[:n]
+}
+
+// c05PoolStop ends all client processes (stdin EOF, then wait).
+func c05PoolStop(kill bool) {
+	for _, ch := range c05Pool {
+		ch.in.Close()
+		if kill {
+			ch.cmd.Process.Kill()
+		}
+		ch.cmd.Wait()
+		ch.outf.Close()
+	}
+	c05Pool = nil
+}
+
+// c05Expect reads the child's stdout up to the token line.
+func c05Expect(t c05Failer, kind string, i int, ch *c05Child, token string) {
 	var seen []string
-	for _, ch := range cs {
-		for {
-			line, err := ch.out.ReadString('\n')
-			if strings.TrimSpace(line) == "C05READY" {
-				break
+	for {
+		line, err := ch.out.ReadString('\n')
+		if strings.TrimSpace(line) == token {
+			return
+		}
+		seen = append(seen, line)
+		if err != nil {
+			werr := ch.cmd.Wait()
+			stderr := ch.errb.String()
+			c05PoolStop(true)
+			if strings.Contains(stderr, "WARNING: DATA RACE") {
+				t.Fatalf("C05 data race: %s backend: the race detector fired in client process %d:\n%s", kind, i, stderr)
 			}
-			seen = append(seen, line)
-			if err != nil {
-				ch.cmd.Wait()
-				for _, o := range cs {
-					o.cmd.Process.Kill()
-				}
-				fmt.Printf("child output: %s %s\n", strings.Join(seen, ""), ch.errb.String())
-				c05Inconclusive("client process ended before it was ready: %v", err)
-			}
+			fmt.Printf("client process %d output: %s\n%s\n", i, strings.Join(seen, ""), stderr)
+			c05Inconclusive("client process %d ended (%v) while the parent waited for %s", i, werr, token)
 		}
 	}
-	start := c05Now() + 2_000_000
-	for _, ch := range cs {
-		fmt.Fprintf(ch.in, "%d\n", start)
-		ch.in.Close()
+}
+
+// c05RunProcs runs one phase with one OS process per client.
+func c05RunProcs(t c05Failer, dir string, tg c05Target, phase int, scripts [][]c05Step) (ops []c05Op, reopens int) {
+	cs := c05PoolGet(len(scripts))
+	var results []string
+	for i, sc := range scripts {
+		jobPath := filepath.Join(dir, fmt.Sprintf("job-%d-%d.gob", phase, i))
+		resPath := filepath.Join(dir, fmt.Sprintf("res-%d-%d.gob", phase, i))
+		results = append(results, resPath)
+		var buf bytes.Buffer
+		if err := gob.NewEncoder(&buf).Encode(c05Job{Target: tg, Client: i, Phase: phase, Steps: sc, Out: resPath}); err != nil {
+			c05Inconclusive("encoding job: %v", err)
+		}
+		if err := os.WriteFile(jobPath, buf.Bytes(), 0o600); err != nil {
+			c05Inconclusive("%v", err)
+		}
+		fmt.Fprintf(cs[i].in, "JOB %s\n", jobPath)
 	}
 	for i, ch := range cs {
-		rest, _ := ch.out.ReadString(0) // drain ("PASS")
-		err := ch.cmd.Wait()
-		ch.outrd.Close()
-		if err != nil {
-			if strings.Contains(ch.errb.String(), "WARNING: DATA RACE") {
-				for _, o := range cs[i+1:] {
-					o.cmd.Wait()
-				}
-				t.Fatalf("C05 data race: %s backend: the race detector fired in client process %d:\n%s", tg.Kind, i, ch.errb.String())
-			}
-			fmt.Printf("child %d output: %s %s\n", i, rest, ch.errb.String())
-			c05Inconclusive("client process %d failed: %v", i, err)
-		}
-		b, err := os.ReadFile(ch.res)
+		c05Expect(t, tg.Kind, i, ch, "C05READY")
+	}
+	start := c05Now() + 1_000_000
+	for _, ch := range cs {
+		fmt.Fprintf(ch.in, "START %d\n", start)
+	}
+	for i, ch := range cs {
+		c05Expect(t, tg.Kind, i, ch, "C05DONE")
+		b, err := os.ReadFile(results[i])
 		if err != nil {
 			c05Inconclusive("client process %d left no result: %v", i, err)
 		}
@@ -389,7 +448,11 @@ func c05Test(t *testing.T, name string, kinds []string, modes []string, maxClien
 	c05AWSEnv()
 	rec := vfstat.New(name)
 	defer rec.Flush()
-	c05FlushOnExit = rec.Flush
+	c05FlushOnExit = func() { rec.Flush(); c05PoolStop(true) }
+	defer func() {
+		c05PoolStop(false)
+		rec.Add("client_processes_spawned", c05Spawned)
+	}()
 	rapid.Check(t, func(t *rapid.T) {
 		kind := kinds[0]
 		if len(kinds) > 1 {
